@@ -19,6 +19,7 @@ import sys
 import traceback
 import uuid
 
+THOROUGH_SCALE = 1.0
 PID = "C07"
 TITLE = "Compiled extensions behave exactly like the pure-Python driver"
 LEVEL = "exploration"
